@@ -123,6 +123,8 @@ structure Rest where
   /-- heads removed from `heads` by `heads.clear()` during the current `run_to_completion` (their Python objects keep
       position and status, unlike merged heads which are INACTIVE) -/
   cleared : List Key := []
+  /-- exceptions caught by the try/except of `_advance_head_front` during the current event (diagnostics) -/
+  caught : List String := []
   deriving Inhabited
 
 structure VM where
